@@ -18,7 +18,7 @@ ID = "C17"
 TECHNIQUE = "exhaustive operation-history enumeration on the real AsyncQueue under a hand-stepped loop, list reference model"
 RULE = (
     "all operation sequences up to length L over {enqueue 1, enqueue 3, finish, finish(error), "
-    "cancel queue, start receive (if none pending), cancel pending receive, run loop}, then drain; "
+    "cancel queue, start receive (if none pending), cancel pending receive, run loop to quiescence, run one loop iteration}, then drain; "
     "non-trivial = the history has a consumer operation and a producer operation and at least one "
     "receive was suspended or cancelled"
 )
@@ -35,7 +35,7 @@ class QErr(Exception):
     pass
 
 
-OPS = ["enq1", "enq3", "finish", "finish_err", "cancel", "recv", "cancel_recv", "run"]
+OPS = ["enq1", "enq3", "finish", "finish_err", "cancel", "recv", "cancel_recv", "run", "tick"]
 
 
 def programs(tier: str):
@@ -96,6 +96,7 @@ def execute(program, ch: Chooser) -> Result:  # noqa: C901, PLR0912, PLR0915
                 enabled.append("cancel_recv")
             if loop._ready:
                 enabled.append("run")
+                enabled.append("tick")  # exactly one loop iteration
             c = ch.choose(len(enabled) + 1, "op")
             if c == 0:
                 break
@@ -138,6 +139,9 @@ def execute(program, ch: Chooser) -> Result:  # noqa: C901, PLR0912, PLR0915
                 recv_task.cancel()
                 recv_cancel_requested = True
                 cancelled_recv += 1
+            elif op == "tick":
+                loop.run_iteration()
+                harvest()
             elif op == "run":
                 if recv_task is not None and not recv_task.done():
                     pass
